@@ -259,8 +259,15 @@ impl<'a> Namespace<'a> {
     ///  Returns the supertypes of a def or an empty list if it can't be found.
     pub fn supertypes_of(&'a self, symbol: &Symbol) -> MapReadRef<'a, Symbol, Vec<&'a Dict>> {
         if let Some(super_types) = self.supertypes_of_cache.get(symbol) {
+            #[cfg(feature = "verif-hooks")]
+            crate::haystack::verif_hooks::cache_event(crate::haystack::verif_hooks::CACHE_SUPERTYPES, crate::haystack::verif_hooks::EV_HIT, &symbol.value);
             super_types
         } else {
+            #[cfg(feature = "verif-hooks")]
+            {
+                crate::haystack::verif_hooks::cache_event(crate::haystack::verif_hooks::CACHE_SUPERTYPES, crate::haystack::verif_hooks::EV_MISS, &symbol.value);
+                crate::haystack::verif_hooks::yield_point(0);
+            }
             let val = match self.get(symbol) {
                 Some(def) => {
                     if let Some(is_a_list) = def.get_list("is") {
@@ -285,9 +292,23 @@ impl<'a> Namespace<'a> {
                 None => Vec::default(),
             };
 
-            if !self.supertypes_of_cache.contains_key(symbol) {
-                self.supertypes_of_cache.insert(symbol.clone(), val);
+            #[cfg(feature = "verif-hooks")]
+            {
+                crate::haystack::verif_hooks::cache_event(crate::haystack::verif_hooks::CACHE_SUPERTYPES, crate::haystack::verif_hooks::EV_COMPUTED, &symbol.value);
+                crate::haystack::verif_hooks::yield_point(1);
+                if self.supertypes_of_cache.contains_key(symbol) {
+                    crate::haystack::verif_hooks::cache_event(crate::haystack::verif_hooks::CACHE_SUPERTYPES, crate::haystack::verif_hooks::EV_LOST_RACE, &symbol.value);
+                }
             }
+            if !self.supertypes_of_cache.contains_key(symbol) {
+                #[cfg(feature = "verif-hooks")]
+                crate::haystack::verif_hooks::yield_point(2);
+                self.supertypes_of_cache.insert(symbol.clone(), val);
+                #[cfg(feature = "verif-hooks")]
+                crate::haystack::verif_hooks::cache_event(crate::haystack::verif_hooks::CACHE_SUPERTYPES, crate::haystack::verif_hooks::EV_INSERTED, &symbol.value);
+            }
+            #[cfg(feature = "verif-hooks")]
+            crate::haystack::verif_hooks::yield_point(3);
             self.supertypes_of_cache.get(symbol).expect("Cached value")
         }
     }
@@ -396,8 +417,15 @@ impl<'a> Namespace<'a> {
     /// Return the defs inheritance as a flattened array of defs.
     pub fn inheritance(&'a self, symbol: &Symbol) -> MapReadRef<'a, Symbol, Vec<&'a Dict>> {
         if let Some(inheritance) = self.inheritance_of_cache.get(symbol) {
+            #[cfg(feature = "verif-hooks")]
+            crate::haystack::verif_hooks::cache_event(crate::haystack::verif_hooks::CACHE_INHERITANCE, crate::haystack::verif_hooks::EV_HIT, &symbol.value);
             inheritance
         } else {
+            #[cfg(feature = "verif-hooks")]
+            {
+                crate::haystack::verif_hooks::cache_event(crate::haystack::verif_hooks::CACHE_INHERITANCE, crate::haystack::verif_hooks::EV_MISS, &symbol.value);
+                crate::haystack::verif_hooks::yield_point(4);
+            }
             let val = if let Some(def) = self.get(symbol) {
                 let mut supertypes = HashSet::<&Dict>::new();
                 supertypes.insert(def);
@@ -406,9 +434,23 @@ impl<'a> Namespace<'a> {
             } else {
                 Vec::default()
             };
-            if !self.inheritance_of_cache.contains_key(symbol) {
-                self.inheritance_of_cache.insert(symbol.clone(), val);
+            #[cfg(feature = "verif-hooks")]
+            {
+                crate::haystack::verif_hooks::cache_event(crate::haystack::verif_hooks::CACHE_INHERITANCE, crate::haystack::verif_hooks::EV_COMPUTED, &symbol.value);
+                crate::haystack::verif_hooks::yield_point(5);
+                if self.inheritance_of_cache.contains_key(symbol) {
+                    crate::haystack::verif_hooks::cache_event(crate::haystack::verif_hooks::CACHE_INHERITANCE, crate::haystack::verif_hooks::EV_LOST_RACE, &symbol.value);
+                }
             }
+            if !self.inheritance_of_cache.contains_key(symbol) {
+                #[cfg(feature = "verif-hooks")]
+                crate::haystack::verif_hooks::yield_point(6);
+                self.inheritance_of_cache.insert(symbol.clone(), val);
+                #[cfg(feature = "verif-hooks")]
+                crate::haystack::verif_hooks::cache_event(crate::haystack::verif_hooks::CACHE_INHERITANCE, crate::haystack::verif_hooks::EV_INSERTED, &symbol.value);
+            }
+            #[cfg(feature = "verif-hooks")]
+            crate::haystack::verif_hooks::yield_point(7);
             self.inheritance_of_cache.get(symbol).expect("Cached value")
         }
     }
